@@ -2,8 +2,10 @@
 import os
 import shutil
 import struct
+import sys
 import tempfile
 import threading
+import time
 
 from paramiko.primes import ModulusPack
 from paramiko.ssh_exception import SSHException
@@ -25,7 +27,13 @@ META = dict(
          "judged against an independent selection: member of the accepted lines, never a rejected line, and "
          "when an accepted size lies in [min,max]: the smallest in-range size >= preferred, else the largest "
          "in-range size. A few real client/server group-exchange handshakes over a generated moduli file are "
-         "judged the same way from the tapped wire messages. Holds on the executions produced.",
+         "judged the same way from the tapped wire messages. Wrong advertised sizes are a file-level dimension "
+         "(single lines / every line of one real length / every line of the file) with requests aimed at exactly "
+         "the lengths that exist only on such lines. Every read_file + request batch runs in a helper thread under "
+         "a bounded-progress rule (no return after 6 s, then >= 3 stack samples 2 s apart in the same paramiko "
+         "function with the same request in flight while the process burns CPU => 'did not return' VIOLATION "
+         "with file and request; a starved or slow worker is inconclusive), so a "
+         "non-returning get_modulus is a verdict, not a shard timeout. Holds on the executions produced.",
     note="'Size' is the modulus' real bit length (what the client can measure), which the moduli file "
          "understates by one. Valid lines are valid under every reading (type 2, strong test, no 'composite' bit, "
          ">= 100 tries) and invalid lines invalid under every reading; the grey zone (type > 2, composite bit, "
@@ -68,8 +76,18 @@ def make_file(rng):
     lines = []
     accepted = []
     rejected = {}
+    # advertised-size dimension: besides single lines with a wrong size field (below), EVERY line of one real bit
+    # length, or every line of the file, may carry a size that disagrees with the modulus' true length
+    r = rng.random()
+    mislabel = "one-length" if r < 0.25 else "whole-file" if r < 0.31 else "none"
+    bad_len = rng.choice(pool)
+    mislabelled_lens = set()
+    first = True
     for _ in range(rng.randint(1, 14)):
         bits = rng.choice(pool)
+        if first and mislabel == "one-length":
+            bits = bad_len  # make sure that length really occurs
+        first = False
         p = rand_modulus(rng, bits)
         # accepted under every reading of the requirements: safe prime (type 2), a strong test without the
         # "composite" bit 0x01, and at least 100 tries
@@ -88,6 +106,10 @@ def make_file(rng):
             tests, tries, reason = rng.choice([4, 6]), rng.choice([0, 1, 50, 99]), "tries"
         elif kind < 0.90:
             size, reason = bits + rng.choice([-3, -2, 1, 2, 7]), "bitlength"
+        if reason is None and kind < 0.90 and (mislabel == "whole-file" or (mislabel == "one-length" and bits == bad_len)):
+            size, reason = bits + rng.choice([-3, -2, 1, 2, 7]), "bitlength"
+        if reason == "bitlength":
+            mislabelled_lens.add(bits)
         ts = "%014d" % rng.randint(20000101000000, 20301231235959)
         fields = [ts, str(mod_type), str(tests), str(tries), str(size), str(g), "%X" % p]
         if kind >= 0.90:
@@ -112,7 +134,10 @@ def make_file(rng):
         if rng.random() < 0.15:
             lines.append(rng.choice(["", "# comment", "#" + lines[-1], "   "]))
     rng.shuffle(lines)
-    return "\n".join(lines) + rng.choice(["\n", ""]), accepted, rejected
+    good_lens = {p.bit_length() for g, p in accepted}
+    info = dict(mislabel=mislabel, some_mislabelled=bool(mislabelled_lens),
+                dead_lengths=sorted(mislabelled_lens - good_lens))  # lengths that exist only on mislabelled lines
+    return "\n".join(lines) + rng.choice(["\n", ""]), accepted, rejected, info
 
 
 def ref_select(accepted, lo, prefer, hi):
@@ -243,44 +268,137 @@ def rand_request(rng, sizes):
     return near(), near(), near()
 
 
+HANG = dict(seen=0)
+FIRST_WAIT, SAMPLE_GAP, SAMPLES, GIVE_UP = 6.0, 2.0, 3, 120.0
+
+
+def innermost_paramiko_frame(thread_id):
+    """(function name, line) of the innermost frame of that thread that lies in paramiko/ (None if gone)."""
+    fr = sys._current_frames().get(thread_id)
+    while fr is not None:
+        fn = fr.f_code.co_filename
+        if os.sep + "paramiko" + os.sep in fn:
+            return "%s.%s" % (os.path.basename(fn)[:-3], fr.f_code.co_name)
+        fr = fr.f_back
+    return None
+
+
+def run_guarded(work, state):
+    """Run `work()` (pure computation on a moduli pack: microseconds) in a helper thread under a bounded-progress
+    rule. Returns None when it finished, else the paramiko function it is stuck in. Stuck = not returned after
+    FIRST_WAIT seconds AND >= SAMPLES consecutive stack samples SAMPLE_GAP seconds apart show the same in-flight
+    request, the same completed-request count and the same innermost paramiko function AND the process burnt
+    >= 0.5 s of CPU meanwhile (the caller sleeps, so that CPU went into the worker: it is spinning, not starved
+    by a loaded machine). Anything else is waited for up to GIVE_UP seconds and then reported as 'slow'
+    (inconclusive, never a verdict)."""
+    t = threading.Thread(target=work, daemon=True, name="vf-c43-worker")
+    t.start()
+    t.join(FIRST_WAIT)
+    t0 = time.monotonic()
+    run, cpu0 = [], time.process_time()
+    while t.is_alive():
+        obs = (state.get("current"), state.get("done"), innermost_paramiko_frame(t.ident))
+        if run and obs != run[-1]:
+            run, cpu0 = [], time.process_time()  # progress: start over
+        run.append(obs)
+        if len(run) >= SAMPLES and obs[2] is not None and time.process_time() - cpu0 >= 0.5:
+            return obs[2]
+        if time.monotonic() - t0 > GIVE_UP:
+            return "slow"
+        t.join(SAMPLE_GAP)
+    return None
+
+
 def run_file(ctx, rng, tmpdir, nreq, fileno):
-    text, accepted, rejected = make_file(rng)
+    text, accepted, rejected, info = make_file(rng)
     path = os.path.join(tmpdir, "moduli")
     with open(path, "w") as f:
         f.write(text)
+    sizes = sorted({p.bit_length() for g, p in accepted})
+    # requests are placed around the accepted sizes AND around lengths that exist only on mislabelled lines
+    around = sorted(set(sizes) | set(info["dead_lengths"])) or [rng.randint(16, 400)]
+    requests = [rand_request(rng, around) for _ in range(nreq)]
+    if info["dead_lengths"]:
+        for k in range(min(6, nreq)):  # some requests that would select exactly a dead length
+            L = rng.choice(info["dead_lengths"])
+            requests[k] = rng.choice([(L, L, L), (L - 1, L, L + 1), (max(0, L - 40), L, L + 40), (0, L, 0xFFFFFFFF)])
     pack = ModulusPack()
-    try:
-        pack.read_file(path)
-    except Exception as e:
-        ctx.violation("exception from read_file: " + exc_signature(e), repr(e)[:200], dict(file=text))
-        return
     pack._vf_ref = (accepted, rejected)
     pack._vf_text = text
+    state = dict(current="read_file", done=0)
+    results = []
+
+    def work():
+        try:
+            pack.read_file(path)
+        except Exception as e:
+            results.append(("read_file", "exc", e))
+            return
+        for req in requests:
+            state["current"] = req
+            try:
+                results.append((req, "ok", pack.get_modulus(*req)))
+            except gacontract.Breach as e:
+                results.append((req, "breach", e))
+            except Exception as e:
+                results.append((req, "exc", e))
+            state["done"] += 1
+        state["current"] = "finished"
+
+    stuck = run_guarded(work, state)
+    ctx.count("guarded_batches_run")
+    for flag, name in (("some_mislabelled", "files_with_some_mislabelled_size_lines"),):
+        if info[flag]:
+            ctx.count(name)
+    if info["mislabel"] == "one-length":
+        ctx.count("files_with_every_line_of_one_length_mislabelled")
+    if info["mislabel"] == "whole-file":
+        ctx.count("files_with_every_line_mislabelled")
+    if stuck is not None:
+        cur = state.get("current")
+        wit = dict(file=text, request=list(cur) if isinstance(cur, tuple) else cur, completed_requests=state.get("done"),
+                   mislabel=info["mislabel"], dead_lengths=info["dead_lengths"])
+        if stuck == "slow":
+            ctx.inconclusive("moduli batch still progressing after %d s (file %d)" % (GIVE_UP, fileno))
+        else:
+            HANG["seen"] += 1
+            what = "read_file" if cur == "read_file" else "get_modulus"
+            ctx.violation("%s did not return (spinning in %s%s)"
+                          % (what, stuck, "; every line of the requested length has a wrong advertised size"
+                             if isinstance(cur, tuple) and ref_would_touch(cur, info) else ""),
+                          "%s%r made no progress over %d stack samples %.0f s apart after %.0f s"
+                          % (what, cur, SAMPLES, SAMPLE_GAP, FIRST_WAIT), wit)
+        REC.drain(ctx)
+        return
+    if results and results[0][0] == "read_file":
+        e = results[0][2]
+        ctx.violation("exception from read_file: " + exc_signature(e), repr(e)[:200], dict(file=text))
+        return
     ctx.count("files_parsed")
     ctx.count("lines_rejected_by_reference", len(rejected))
     ctx.count("lines_accepted_by_reference", len(accepted))
-    sizes = sorted({p.bit_length() for g, p in accepted})
-    for k in range(nreq):
-        lo, prefer, hi = rand_request(rng, sizes or [rng.randint(16, 400)])
+    for k, (req, kind, got) in enumerate(results):
+        lo, prefer, hi = req
         shape = request_shape(lo, prefer, hi)
         ctx.case(("req", ctx.shard, fileno, lo, prefer, hi), nontrivial=bool(accepted),
                  sample=dict(kind="direct", file=text, request=[lo, prefer, hi], accepted_sizes=sizes,
-                             rule_gives=ref_select(accepted, lo, prefer, hi)) if fileno < 2 and k == 0 else None)
-        try:
-            got = pack.get_modulus(lo, prefer, hi)
-        except gacontract.Breach:
-            REC.drain(ctx)
-            continue
-        except SSHException as e:
-            if accepted:
-                ctx.violation("get_modulus raised although the file has acceptable moduli",
-                              repr(e)[:200], dict(file=text, request=[lo, prefer, hi]))
+                             mislabel=info["mislabel"], lengths_only_on_mislabelled_lines=info["dead_lengths"],
+                             rule_gives=ref_select(accepted, lo, prefer, hi)) if fileno < 1 and k == 0 else None)
+        if ref_would_touch(req, info):
+            ctx.count("requests_aimed_at_a_fully_mislabelled_length")
+        if kind == "breach":
+            continue  # recorded by the contract; drained below
+        if kind == "exc":
+            e = got
+            if isinstance(e, SSHException):
+                if accepted:
+                    ctx.violation("get_modulus raised although the file has acceptable moduli",
+                                  repr(e)[:200], dict(file=text, request=[lo, prefer, hi]))
+                else:
+                    ctx.count("empty_pack_refusals")
             else:
-                ctx.count("empty_pack_refusals")
-            continue
-        except Exception as e:
-            ctx.violation("exception from get_modulus: " + exc_signature(e), repr(e)[:200],
-                          dict(file=text, request=[lo, prefer, hi]))
+                ctx.violation("exception from get_modulus: " + exc_signature(e), repr(e)[:200],
+                              dict(file=text, request=[lo, prefer, hi]))
             continue
         ctx.count("offers_judged")
         ctx.count("requests_" + shape.replace(" ", "_").replace("<=", "le").replace("<", "lt").replace(">", "gt"))
@@ -295,6 +413,12 @@ def run_file(ctx, rng, tmpdir, nreq, fileno):
         if v is not None:
             ctx.violation(v[0], v[1], dict(file=text, request=[lo, prefer, hi]))
     REC.drain(ctx)
+
+
+def ref_would_touch(req, info):
+    """Would a selection that wrongly kept the mislabelled lengths pick one of them for this request?"""
+    lo, prefer, hi = req
+    return any(lo <= L <= hi for L in info["dead_lengths"])
 
 
 # --------------------------------------------------------------------------
@@ -385,7 +509,15 @@ def run(ctx):
         nfiles = ctx.pick(500, 4000)
         for fileno in range(nfiles):
             run_file(ctx, rng, tmpdir, ctx.pick(30, 40), fileno)
-        session_sample(ctx, rng, ctx.pick(3, 12), tmpdir)
+            if HANG["seen"]:
+                # a spinning worker cannot be killed; one refuting hang per shard is enough evidence, and every
+                # further one would add a thread that eats the interpreter. The shard ends here, VIOLATED.
+                ctx.count("files_skipped_after_a_hang", nfiles - fileno - 1)
+                break
+        if ctx.violations:
+            ctx.count("session_sample_skipped_after_violation")  # a server thread must not meet the same hang
+        else:
+            session_sample(ctx, rng, ctx.pick(3, 12), tmpdir)
     finally:
         shutil.rmtree(tmpdir, ignore_errors=True)
     ctx.require("files_parsed", 500)
@@ -394,3 +526,8 @@ def run(ctx):
     ctx.require("contract_offer_follows_reference_selection", 10000)
     ctx.require("lines_rejected_by_reference", 500)
     ctx.require("session_gex_groups_judged", 4)
+    ctx.require("guarded_batches_run", 500)
+    ctx.require("files_with_some_mislabelled_size_lines", 300)
+    ctx.require("files_with_every_line_of_one_length_mislabelled", 200)
+    ctx.require("files_with_every_line_mislabelled", 40)
+    ctx.require("requests_aimed_at_a_fully_mislabelled_length", 3000)
